@@ -553,7 +553,8 @@ def parents(gen, env):
     out.append(('filter/index', 'num', lambda c: ('filter', ('list', (n(), n(), n())), c)))
     out.append(('filter/pred', 'bool', lambda c: ('filter', ('list', (n(), n())), c)))
     out.append(('for/dom', 'lnum', lambda c: ('for', ((108, ('dlist', c)), (107, ('drange', ('num', 1), ('num', 2)))), ('bin', 'Add', ('name', 108), ('name', 107)))))
-    out.append(('for/range', 'num', lambda c: ('for', ((108, ('drange', ('num', 1), c)),), ('name', 108))))
+    # the range end is clamped: an arbitrary numeric expression could make the iteration astronomically long (legitimate work, not a hang)
+    out.append(('for/range', 'num', lambda c: ('for', ((108, ('drange', ('num', 1), ('if', ('between', c, ('num', -20), ('num', 20)), c, ('num', 3)))),), ('name', 108))))
     out.append(('for/body', 'any', lambda c: ('for', ((108, ('dlist', ('list', (n(), n())))),), c)))
     out.append(('some/dom', 'lnum', lambda c: ('some', ((108, c),), ('bin', 'Gt', ('name', 108), ('num', 1)))))
     out.append(('some/body', 'bool', lambda c: ('some', ((108, ('list', (n(), n()))),), c)))
